@@ -101,7 +101,7 @@ def r1_table(ctx, F, table):
                 if wa.startswith("from:"):
                     ok = all(x.strip() in ga for x in wa[5:].split("&"))
                 else:
-                    ok = ga == wa
+                    ok = vf.same_text(ga, wa)
                 ctx.check("R1-syscall-table", "%s/%s/arg%d" % (nm, g[0], k), ok,
                           "%s: argument %d of %s is `%s`, the operation requires `%s`" % (owner, k, g[0], ga[:200], wa), loc=c.loc(), detail=ga[:100])
             ctx.check("R1-syscall-table", "%s/%s/arity" % (nm, g[0]), len(g[1]) == len(w[1]), "%s: %s takes %d arguments, table has %d" % (owner, g[0], len(g[1]), len(w[1])), loc=c.loc())
@@ -166,6 +166,11 @@ def r2_creds(ctx, F):
         for s0 in [c for c in live_calls(m) if c.name == "set_creds" and (c.fn or "").endswith("passthrough::set_creds")]:
             nsites += 1
             owner = m.name if m.kind != "closure" else F.fns[m.owner].name + "/closure"
+            # the ids switched in are the caller's, uid as uid and gid as gid
+            mv = vf.VF(m, inline_depth=0)
+            ids = [vf.render(x, m, short=True) for x in mv.call_args(s0)]
+            ctx.check("R2-credentials", "site/%s#%d/ids" % (owner, nsites), [re.sub(r"^\^", "", t) for t in ids] == ["ctx.uid", "ctx.gid"],
+                      "%s switches to (%s): the request context's (uid, gid) are required, in that order" % (owner, ", ".join(ids)), loc=s0.loc())
             # the first operation performed under the switched credentials
             after = [c for c in live_calls(m) if c is not s0 and c.name not in ("branch", "from_residual") and m.dominates(s0.bb, c.bb) and c.bb != s0.bb]
             after.sort(key=lambda c: len(m.reach_set(s0.bb, avoid={c.bb})))
@@ -393,6 +398,30 @@ def r4_errors(ctx, F):
                         tested = True
             conv = any(x.name == "last_os_error" for x in live_calls(b))
             n += 1
+            # direction of the test: errno is read exactly where the call reported failure (`res < 0`, or `res != 0` for calls that
+            # return 0 on success) - `<= 0` or a swapped `== 0` turn successes into errors and errors into successes
+            rt = vf.render(res, b, short=True, vfx=v)
+            fail_sites, odd = 0, []
+            for e in live_calls(b):
+                if e.name != "last_os_error":
+                    continue
+                mine = [(vf.render(x, b, [(res, "RES")], short=True, vfx=v), l) for (x, l, u) in v.guards(e.bb) if any(y == res for y in vf.walk(x))]
+                if not mine:
+                    continue
+                t, l = mine[-1]
+                if t == "RES" and l != 0:
+                    fail_sites += 1     # `match res { 0 => Ok(..), _ => Err(last_os_error()) }`
+                elif l != 0 and (re.fullmatch(r"Lt\(.*RES.*, 0\)", t) or re.fullmatch(r"Ne\(0, .*RES.*\)", t) or re.fullmatch(r"Eq\(-1, .*RES.*\)", t)):
+                    fail_sites += 1
+                elif l != 0 and re.fullmatch(r"Le\(0, .*RES.*\)", t):
+                    pass        # inside the success branch of this call: the site belongs to a later call
+                else:
+                    odd.append((t[:80], l))
+            if tested and conv:
+                ctx.check("R4-error-conversion", "%s/%s/direction" % (b.name, c.name if c.name != "syscall" else vf.render(v.call_args(c)[0], b, short=True)),
+                          fail_sites >= 1 and not odd,
+                          "%s: errno of %s is read under %s; it must be read exactly on the failure edge (`res < 0`, or `res != 0` for 0-on-success calls)"
+                          % (b.name, c.name, odd or "no failure test of this result"), loc=c.loc())
             ctx.check("R4-error-conversion", "%s/%s" % (b.name, c.name if c.name != "syscall" else vf.render(v.call_args(c)[0], b, short=True)), tested and conv,
                       "%s: the result of %s is %s" % (b.name, c.name, "not tested" if not tested else "not converted with last_os_error()"), loc=c.loc())
     ctx.check("R4-error-conversion", "count", n >= 25, "only %d libc call results inspected" % n)
@@ -430,6 +459,14 @@ def handle_flag_tracking(ctx, F, rule):
         g = [(vf.render(cond, b, short=True), lab) for (cond, lab, u) in v.guards(sc[0].bb)]
         ok = ("Ne(HandleData::get_flags(data), flags)", "otherwise") in g or ("Ne(flags, HandleData::get_flags(data))", "otherwise") in g
         ok = ok and [vf.render(x, b, short=True) for x in v.call_args(sc[0])] == ["fd", "F_SETFL", "flags"] and vf.render(v.call_args(st[0])[1], b, short=True) == "flags"
+    # the accessors read and write the one cached word
+    hd = "passthrough::HandleData"
+    gf, sf = F.method(hd, "get_flags"), F.method(hd, "set_flags")
+    gr = vf.render(vf.VF(gf, inline_depth=0).ret(), gf, short=True)
+    sc_ = [c for c in live_calls(sf) if c.name == "store"]
+    sa = [vf.render(x, sf, short=True) for x in vf.VF(sf, inline_depth=0).call_args(sc_[0])] if len(sc_) == 1 else []
+    ctx.check(rule, "handle-flags/accessors", gr.startswith("Atomic::load(self.open_flags") and sa[:2] == ["self.open_flags", "flags"],
+              "HandleData::get_flags/set_flags no longer load/store self.open_flags (get: %s, set: %s)" % (gr[:80], sa), loc=sf.loc())
     ctx.check(rule, "check_fd_flags", ok, "check_fd_flags is not `if stored != flags { fcntl(fd, F_SETFL, flags); store(flags) }`", loc=b.loc())
     # do_open stores the request's flags in the handle (so that the refresh above compares against them)
     b = F.method(PFS, "do_open")
